@@ -478,12 +478,10 @@ def check(ck: Check) -> None:
         "rationals); range and repeatability are tested on samples with tiny budgets (level: test)",
     ]
     ck.not_proved += [
-        "lower_bound_bins = min_bins as a theorem (needs C03's model of the Dell'Amico-Martello-Vigo bound); proved here: "
-        "geoBound = min_bins and packability into min_bins bins",
         "templates with more than 1e8 items (InstanceSpace accepts up to 1e9): Instance() can reject the generated item list "
         "(multiplicity or number of types > 1e8); decode_succeeds carries n_items <= 1e8, decode_instance_ok holds whenever the "
         "constructor accepts",
         "Hardness: float arithmetic and the optimisation runs are outside the proof (sampled test only)",
     ]
-    ck.lean(["Props.C17"], THEOREMS)
+    ck.lean(["Props.C17", "Props.C17LB"], THEOREMS + ["InstGen.lower_bound_eq_min_bins"])
     streams(ck)
